@@ -594,6 +594,7 @@ func genC07(seed uint64, idx int, tier string) *Plan {
 		if idx%3 == 0 {
 			lp.SlowWriteReturnMs = []int{1, 20, 300}[(idx/3)%3]
 		}
+		lp.NoCCS = idx%4 == 2
 		if lp.ChainPad > 0 && (p.Mode == "cuts" || p.Mode == "wcuts" || p.Mode == "wsplit") {
 			p.Stride = 7 // long streams: every 7th offset, plus all offsets of the short ones
 		}
